@@ -7,7 +7,7 @@ CONSTANTS
   Edits <- TwoEdits
   MaxEdits = 2
   InitThr <- BOOLEAN
-  Ops <- AllOps
+  Ops <- NoCacheOps
 INVARIANT TypeOK
 INVARIANT ClassesAreContents
 INVARIANT LastIsOwn
